@@ -249,11 +249,18 @@ Definition K6 (m : nmap) : Prop := forall x, (sched (m x) <= NEVER)%N /\ (agg (m
 (* no parent cycles: a rank that strictly grows from parent to child *)
 Definition acyc (m : nmap) : Prop := exists rk : nat -> nat, forall c p, parent (m c) = Some p -> rk p < rk c.
 
-Record Inv0 (m : nmap) : Prop := {
-  i_wf : WF m; i_listed : listed m;
-  i_k1 : K1 m; i_k3 : K3 m; i_k4 : K4 m; i_k5 : K5 m; i_k6 : K6 m;
-  i_acyc : acyc m
+(* a destroyed object takes part in nothing *)
+Definition inert (n : node) : Prop :=
+  parent n = None /\ cur n = LNone /\ ls n = [] /\ lu n = [] /\ lr n = [].
+Definition dead_inert (m : nmap) : Prop := forall x, alive (m x) = false -> inert (m x).
+
+(* what holds at every instant, also in the middle of a sweep *)
+Record Core (m : nmap) : Prop := {
+  c_wf : WF m; c_k1 : K1 m; c_k4 : K4 m; c_k5 : K5 m; c_k6 : K6 m; c_acyc : acyc m; c_dead : dead_inert m
 }.
+
+(* ... and between the statements of Put/RemovePulseChild *)
+Record Inv0 (m : nmap) : Prop := { i_core : Core m; i_listed : listed m; i_k3 : K3 m }.
 
 (* descendants, via parent pointers *)
 Inductive desc (m : nmap) (r : nat) : nat -> Prop :=
